@@ -154,7 +154,7 @@ def normalise_impl(tag, it, vals, ls):
     return out
 
 
-def cached_build_and_run(cfg, modules, keep_src, hostile=False):
+def cached_build_and_run(cfg, modules, keep_src, hostile=False, miri=False):
     """observations of the real expansions are cached (text only), keyed by the sources of /repo and of the probe crate"""
     import hashlib, gzip, pickle
     h = hashlib.sha256()
@@ -164,6 +164,7 @@ def cached_build_and_run(cfg, modules, keep_src, hostile=False):
     h.update(probe.PRELUDE.encode())
     h.update(probe.ZPRELUDE.encode())
     h.update(b'hostile' if hostile else b'plain')
+    h.update(b'miri' if miri else b'native')
     for i, m in modules:
         h.update(m.encode())
     key = os.path.join(runner.CACHE, 'probe-' + h.hexdigest()[:32] + '.pkl.gz')
@@ -173,7 +174,7 @@ def cached_build_and_run(cfg, modules, keep_src, hostile=False):
                 return pickle.load(fh)
         except Exception:
             pass
-    res = probe.build_and_run(cfg, modules, runner.REPO, runner.SCRATCH_ROOT, keep_src, hostile)
+    res = probe.build_and_run(cfg, modules, runner.REPO, runner.SCRATCH_ROOT, keep_src, hostile, miri)
     os.makedirs(runner.CACHE, exist_ok=True)
     import threading
     tmp = key + '.tmp%d.%d' % (os.getpid(), threading.get_ident())
@@ -186,7 +187,7 @@ def cached_build_and_run(cfg, modules, keep_src, hostile=False):
 TAGS = ['eq', 'cmp', 'pcmp', 'hash', 'clone', 'default', 'debug', 'debugp', 'zeroize', 'drop']
 
 
-def run(cfg, cases, seed=1, limit=300, only=None, keep_src=None, priority=(), hostile=False):
+def run(cfg, cases, seed=1, limit=300, only=None, keep_src=None, priority=(), hostile=False, miri=False):
     t0 = time.time()
     if hostile:
         cases = [c for c in cases if probe.hostile_ok(c[1])]
@@ -205,7 +206,7 @@ def run(cfg, cases, seed=1, limit=300, only=None, keep_src=None, priority=(), ho
     stats = dict(cfg=cfg, selected=len(sel), values=sum(len(p[3]) for p in plan), compared=0, observations=0, compile_errors=0, aborted=None)
     if not sel:
         return stats, []
-    ok, out, err = cached_build_and_run(cfg, modules, keep_src, hostile)
+    ok, out, err = cached_build_and_run(cfg, modules, keep_src, hostile, miri)
     problems = []
     if not ok:
         stats['compile_errors'] = err.count('error')
@@ -232,7 +233,7 @@ def run(cfg, cases, seed=1, limit=300, only=None, keep_src=None, priority=(), ho
             raise runner.Infra('probe crate failed to build:\n' + err[-3000:])
         # rebuild without the offending items
         keep = [m for m in modules if m[0] not in bad]
-        ok, out, err2 = cached_build_and_run(cfg, keep, None, hostile)
+        ok, out, err2 = cached_build_and_run(cfg, keep, None, hostile, miri)
         if not ok:
             raise runner.Infra('probe crate failed to build after removing failing items:\n' + err2[-3000:])
         err = err2
@@ -398,7 +399,7 @@ if __name__ == '__main__':
     if os.environ.get('NOSTD') == '1':
         st, pr = run_nostd(cfg, cases, 1, limit)
     else:
-        st, pr = run(cfg, cases, 1, limit, only, keep_src='/tmp/probe_main.rs', hostile=os.environ.get('HOSTILE') == '1')
+        st, pr = run(cfg, cases, 1, limit, only, keep_src='/tmp/probe_main.rs', hostile=os.environ.get('HOSTILE') == '1', miri=os.environ.get('DW_MIRI') == '1')
     st.pop('_iobs', None)
     print(st)
     for p in pr[:15]:
